@@ -264,9 +264,9 @@ def obligations(tier, seed):
         for rt in (1, 2, 3, 4):
             esis = (0, 1, 2, 3, 4, 5) if rt != 3 else (None,)
             for esi in esis:
-                ips = [None] if rt == 1 else [None, '11.11.11.1', '2001:db8::1']
+                ips = [None] if rt == 1 else [None, '11.11.11.1', '2001:db8::1', '::1', '::255.255.255.255']
                 for ip in ips:
-                    if quick and ip == '2001:db8::1' and esi not in (0, None):
+                    if quick and ip in ('2001:db8::1', '::1', '::255.255.255.255') and esi not in (0, None):
                         continue
                     prm = {'rt': rt, 'dir': d, 'esi': esi, 'ip': ip}
                     out.append(ob('C07/evpn/%s/rt=%d/esi=%s/ip=%s' % (d, rt, esi, ip), 'ob_evpn', prm))
@@ -281,7 +281,7 @@ def obligations(tier, seed):
         out.append(ob('C07/evpn/%s/two-routes' % d, 'ob_evpn', {'rt': 1, 'dir': d, 'esi': 0, 'second': True}))
     # flowspec
     ops = ['=', '>', '<', '>=', '<=']
-    vals = [0, 255, 256, 65535, 2 ** 24, 2 ** 32 - 1] if not quick else [0, 255, 256, 65535, 2 ** 32 - 1]
+    vals = [0, 255, 256, 65535, 65536, 2 ** 24 - 1, 2 ** 24, 2 ** 32 - 1] if not quick else [0, 255, 256, 65535, 65536, 2 ** 32 - 1]
     for d in dirs:
         for comp in (1, 2):
             for pl in v4lens:
@@ -307,6 +307,10 @@ def obligations(tier, seed):
                 if nxt[comp]:
                     out.append(ob('C07/flowspec/%s/comp=%d/>=%d-then-component-%d' % (d, comp, v, nxt[comp]), 'ob_flowspec',
                                   {'dir': d, 'comp': comp, 'expr': '>=%d' % v, 'also': {str(nxt[comp]): '=80'}}))
+        # a rule of 240 octets or more (two-octet NLRI length, RFC 5575 section 4): 80 / 100 three-octet alternatives
+        for n in (79, 80, 100):
+            out.append(ob('C07/flowspec/%s/comp=5/long-rule/n=%d' % (d, n), 'ob_flowspec',
+                          {'dir': d, 'comp': 5, 'expr': '|'.join('=%d' % (1000 + i) for i in range(n))}))
         out.append(ob('C07/flowspec/%s/two-rules' % d, 'ob_flowspec', {'dir': d, 'comp': 1, 'plen': 24, 'second': True}))
     out.append(ob('C07/flowspec/reach/nexthop', 'ob_flowspec', {'dir': 'reach', 'comp': 1, 'plen': 24, 'nexthop': '10.0.0.9'}))
     return out
